@@ -546,6 +546,24 @@ def emitter_quiet(em):
         return True
 
 
+def wait_quiet(observers, emitters, live, timeout, runs=4):
+    """Every event queue dispatched, nothing readable on any inotify descriptor, every delay queue empty -
+    observed `runs` times in a row, 12 ms apart."""
+    quiet_runs = 0
+    deadline = time.monotonic() + timeout
+    while quiet_runs < runs and time.monotonic() < deadline:
+        ok = all(ob.event_queue.unfinished_tasks == 0 for ob in observers.values())
+        if ok:
+            for ln in live:
+                eu, ef = emitters[id(ln)]
+                if not (emitter_quiet(ef) and emitter_quiet(eu)):
+                    ok = False
+                    break
+        quiet_runs = quiet_runs + 1 if ok else 0
+        time.sleep(0.012)
+    return quiet_runs >= runs
+
+
 def run_lanes(lanes, history, res: Result | None, timeout=8.0):
     """Drive `history` on all lanes (they share one observer per emitter kind).  Returns per-lane verdicts."""
     from watchdog.events import DirDeletedEvent, FileModifiedEvent
@@ -594,24 +612,15 @@ def run_lanes(lanes, history, res: Result | None, timeout=8.0):
                     time.sleep(0.005)
             for k, (ln, _, _) in waiting.items():
                 ln.dead = f"drain time-out after {op}: the unfiltered watch never reported the sentinel"
-            quiet_runs = 0
-            deadline = time.monotonic() + timeout
-            while quiet_runs < 4 and time.monotonic() < deadline:
-                ok = all(ob.event_queue.unfinished_tasks == 0 for ob in observers.values())
-                if ok:
-                    for ln in live:
-                        eu, ef = emitters[id(ln)]
-                        if not (emitter_quiet(ef) and emitter_quiet(eu)):
-                            ok = False
-                            break
-                quiet_runs = quiet_runs + 1 if ok else 0
-                time.sleep(0.012)
-            if quiet_runs < 4:
+            if not wait_quiet(observers, emitters, live, timeout):
                 for ln in live:
                     if not ln.dead:
                         ln.dead = f"no quiescence within {timeout}s after {op}"
             for ln in lanes:
                 ln.marks.append((len(ln.hu.events), len(ln.hf.events)))
+        # final settle before the streams are judged
+        time.sleep(0.05)
+        wait_quiet(observers, emitters, [ln for ln in lanes if not ln.dead], timeout)
     finally:
         for ob in observers.values():
             try:
@@ -787,6 +796,13 @@ def random_history(rng, n):
 def build_plan(ctx, gaps):
     singles, pairs, rand = filter_universe(ctx, 50)
     plan = []
+    # corpus first: minimised past failures (F6 on the pinned tree)
+    by_hist = {}
+    for c in ctx.corpus():
+        h = tuple(tuple(o) for o in c["history"])
+        by_hist.setdefault((c.get("history_name", "corpus"), h), []).append((c["filter"], c["recursive"], c["full_events"]))
+    for (hname, h), cfgs in by_hist.items():
+        plan.append(("corpus:" + hname, list(h), cfgs))
     if not ctx.thorough:
         for hname, h in HISTORIES.items():
             cfgs = []
@@ -810,6 +826,36 @@ def build_plan(ctx, gaps):
     return plan
 
 
+def confirm(ctx, res: Result, limit=6):
+    """A handful of divergences in an otherwise clean run may come from the drain heuristic (real time, real
+    threads): each is re-run alone, twice; one that never shows again is reported in the notes and the
+    histogram, not as a property failure.  Many divergences (a genuinely broken table) are kept as they are."""
+    if not res.failures or len(res.failures) > limit:
+        return
+    kept = []
+    for f in res.failures:
+        again = 0
+        for _ in range(2):
+            base = tempfile.mkdtemp(prefix="wdc11c", dir=scratch_base())
+            try:
+                ln = Lane(base, 0, f.case["filter"], f.case["recursive"], f.case["full_events"])
+                history = [tuple(o) for o in f.case["history"]]
+                run_lanes([ln], history, None)
+                if not ln.dead and judge(ln, history)[0]:
+                    again += 1
+            finally:
+                shutil.rmtree(base, ignore_errors=True)
+        res.evaluations += 2
+        if again:
+            f.what += f" (reproduced {again}/2 times when re-run alone)"
+            kept.append(f)
+        else:
+            res.hist("e2e_unreproduced_divergence", f.signature.get("filter"))
+            res.notes.append(f"divergence seen once but not reproduced in 2 solo re-runs (not counted): {f.what}; "
+                             f"observed={f.observed}")
+    res.failures[:] = kept
+
+
 # =================================================================== entry points
 def run(ctx) -> Result:
     res = Result()
@@ -828,6 +874,7 @@ def run(ctx) -> Result:
                          + "; ".join(f"{k[0]}{'/recursive' if k[1] else ''}: {'|'.join(v)}" for k, v in sorted(gaps.items())[:30]))
     plan = build_plan(ctx, gaps)
     e2e(ctx, res, plan, batch=26 if not ctx.thorough else 30)
+    confirm(ctx, res)
     res.notes.append(f"timing: unit+translator {t1 - t0:.1f}s, end-to-end {time.time() - t1:.1f}s; "
                      f"{sum(len(c) for _, _, c in plan)} lanes over {len(plan)} histories")
     return res
